@@ -51,9 +51,10 @@ ASSUMPTIONS = [
     "base64 text that is not canonical (foreign characters, data after padding) is accepted liberally by base64.b64decode; such inputs are outside the model's strict codec and are skipped by the correspondence check (counted: corr.skip.noncanonical-base64); non-ASCII text in name fields (IDNA) and Unicode digits/spaces beyond Latin-1 are outside the model",
     "IDNA / non-ASCII name text, omit_final_dot, truncate_crypto (documented as lossy) are outside the property",
     "the legacy to_text(separator=...) keyword raises TypeError in dns/style.py (maps to a non-existent field); it is undocumented and outside the anchored files, so it is noted, not checked",
-    "WKS protocol and service mnemonics are resolved by the host's getprotobyname / getservbyname and are outside the model (only the numeric forms, which to_text always produces; counted corr.skip.wks-mnemonic-or-non-ascii-digits); APL items of a family other than 1/2 have no text form (known finding) and are skipped by the print correspondence",
+    "WKS protocol and service mnemonics are resolved by the host's getprotobyname / getservbyname and are outside the model (only the numeric forms, which to_text always produces; counted corr.skip.wks-mnemonic-or-non-ascii-digits); an APL item of a family other than 1/2 stores its address as hex digits exactly as written (case kept); the model's value is the octets, printed in lower case as from_wire_parser stores them, so the two agree on values from wire and modulo hex-digit case on values from text",
     "IPSECKEY / AMTRELAY keep a gateway address as the text that was given (after inet_aton validation); WfText asks for a plain token that inet_aton accepts, which inet_ntoa's output is (gatewayOk_wire4/6)",
     "texts longer than 20000 characters (the oversized-key witnesses) are checked by the oracle only (model run time)",
+    "informational, not a C05 violation: an unknown-family APL item whose address ends in zero octets (`!7:00/255`) round-trips through text exactly and encodes, but to_wire drops the trailing zero octets (as for families 1/2) and from_wire cannot pad them back; records compare by wire form, so the two values are equal for dnspython and for the oracle's semantic equality (wire-level loss is C02's subject)",
     "per-type proof status (proved / modelled / oracle-only) is listed in the evidence under coverage.type_status",
 ]
 
@@ -203,6 +204,20 @@ def _sanitized_wire(tname, rdclass, rdtype, rd, origin):
         return rd.replace(**kw)
     except Exception:
         return None
+
+
+def _wire_len(n):
+    return sum(len(l) + 1 for l in n.labels)
+
+
+def _relative_names(rd):
+    out = []
+    for slot in rd._get_all_slots():
+        v = getattr(rd, slot, None)
+        for x in (v if isinstance(v, (tuple, list)) else [v]):
+            if isinstance(x, dns.name.Name) and not x.is_absolute():
+                out.append(x)
+    return out
 
 
 def trigger_class(tname, rdclass, rdtype, rd, origin, recheck):
@@ -457,9 +472,22 @@ def eval_ft(ctx: Ctx, c: dict):
     ctx.count("ft.accepted")
     model_corr_fromtext(ctx, c, tname, text, origin, rel, rd)
     cmp_origin = origin if origin is not None else dns.name.root
-    # accepted from text => encodable
+    # accepted from text => encodable (against an origin under which the relative names of the value fit: a name that
+    # from_text read against `origin` fits it by construction, but the TKEY / TSIG algorithm is read without any origin;
+    # `NameTooLong` is then the documented error of the request, like NeedAbsoluteNameOrOrigin without an origin)
     try:
-        w = rd.to_wire(origin=cmp_origin)
+        try:
+            w = rd.to_wire(origin=cmp_origin)
+        except dns.name.NameTooLong:
+            if not any(_wire_len(n) + _wire_len(cmp_origin) > 255 for n in _relative_names(rd)):
+                raise
+            ctx.count("ft.encode.relative-name-does-not-fit-the-origin")
+            if any(_wire_len(n) + 1 > 255 for n in _relative_names(rd)):
+                # a relative name of 255 octets cannot be completed by any origin (C01's subject)
+                ctx.count("ft.encode.relative-name-of-255-octets")
+                return
+            cmp_origin = dns.name.root
+            w = rd.to_wire(origin=cmp_origin)
     except Exception as e:
         trig = "other"
         if tname == "LOC":
@@ -574,7 +602,7 @@ B64_TAIL = {"DNSKEY", "CDNSKEY", "DHCID", "OPENPGPKEY", "BRID", "HHIT", "CERT", 
 B64_TAIL_SKIP = {"IPSECKEY": 1}  # tokens of the tail before the base64 text (the gateway)
 NOWIRE = {"HIP", "TKEY", "TSIG", "IPSECKEY", "AMTRELAY", "APL", "WKS"}  # modelled without a wire decoder: their generic form is oracle-only
 NOENC = {"AMTRELAY"}  # ... and without a wire encoder (to_wire: oracle only)
-B64_ONE = {"HIP": ["key"], "TKEY": ["key"], "TSIG": ["mac", "other"]}  # base64 values read from a single token
+B64_ONE = {"HIP": [("key", 2)], "TKEY": [("key", 5)], "TSIG": [("mac", 4), ("other", 8)]}  # base64 values read from a single token (its index)
 TXT_LIKE = {"TXT", "SPF", "AVC", "NINFO", "RESINFO", "WALLET"}
 
 
@@ -638,9 +666,6 @@ def ascii_only_names(text):
 def corr_print(ctx, c, tname, rd, st, origin, text):
     """text: the implementation's to_styled_text output or None when it raised"""
     if tname not in MODEL:
-        return
-    if tname == "APL" and any(it.family not in (1, 2) for it in rd.items):
-        ctx.count("corr.skip.apl-unknown-family(no text form: known finding D18)")
         return
     o = origin if st.get("o") else None
     op = (f"c05.print {tname} o={enc_optname(o)} r={1 if st.get('rel') else 0} hc={st.get('hcs', 128)} hs={cps(st.get('hsep', ' '))} "
@@ -962,7 +987,8 @@ MISC_ATOMS = ["0123456789abcdefghijklmnopqrstuv", "2t7b4g4vsa5smi47k61mv5bv1a22b
               "99999999999m", "nanm", "infm", "1e3m", "4435.61m", "0.07m", "90000000.00m", "(", ")", ";c", "TCP", "tcp", "smtp", "0x", "0xab", "-", "!1:1.2.3.4/8",
               "1:0.0.0.0/0", "3:ab/8", "2:::/0", "!2:1::/128", "2:1::/129", "1:1.2.3.4/33", "1:1.2.3.4/+8", "+1:1.2.3.4/8", "0x1:1.2.3.4/8", "1:1.2.3.4",
               "1.2.3.4/8", "!", "!!1:1.2.3.4/8", "1:1.2.3.4/8/9", "1:2:1.2.3.4/8", "2:1:2::3/64", "65536:ab/8", "-0:ab/8", '"1:1.2.3.4/8"', "1_0:1.2.3.4/8",
-              "01:1.2.3.4/08", "1:1.2.3.4/-0", "1:1.2.3.4/", ":1.2.3.4/8", "2:::ffff:1.2.3.4/96", "1:01.2.3.4/8",
+              "01:1.2.3.4/08", "1:1.2.3.4/-0", "1:1.2.3.4/", ":1.2.3.4/8", "2:::ffff:1.2.3.4/96", "1:01.2.3.4/8", "!7:00/255", "3:AB/8", "3:abc/8", "3:/8", "0:ab/0", "3:ab/256", "3:ab00/8", "3:0g/8", "3:\\097b/8",
+              "3:ababababababababababababababababababababababababababababababababababababababababababababababababababababababababababababababab/8", "3:abababababababababababababababababababababababababababababababababababababababababababababababababababababababababababababababab/8",
               "90.00000000000000710542735760100185871124267578125", "90.000000000000007105427357601001858711242675781251", "-90.00000000000000710542735760100185871124267578125", "-90.000000000000007105427357601001858711242675781251", "90.00000000000000710542735760100185871124267578124", "90.0", "+90.", "90.00000000000001", "-90.00000000000002", "91", "180.0000000000000142108547152020037174224853515625", "180.00000000000001421085471520200371742248535156251", "-180.0000000000000142108547152020037174224853515625", "-180.00000000000001421085471520200371742248535156251", "180.0000000000000142108547152020037174224853515624", "180.0", "+180.", "180.00000000000001", "-180.00000000000002", "181", ".5", "5.", ".", "+.", "-.5", "1.2.3", "1e5", "00090.000", "-0",
               "alpn=h2", 'alpn="h2,h3"', "port=53", "no-default-alpn", "key65280=abc", "mandatory=alpn", "20240101000000", "1700000000"]
 ALL_ATOMS = NUM_ATOMS + STR_ATOMS + NAME_ATOMS + BLOB_ATOMS + ADDR_ATOMS + MISC_ATOMS
